@@ -22,6 +22,7 @@ def pAdir : Path := ⟨[], 1, true⟩    -- m1/main.koto
 def pB : Path := ⟨[], 2, false⟩      -- m2.koto
 def pC : Path := ⟨[], 3, false⟩      -- m3.koto   (imports itself)
 def pD : Path := ⟨[], 4, false⟩      -- m4.koto   (fails in @main after importing m2)
+def pE : Path := ⟨[], 6, false⟩      -- m6.koto   (re-exports parts of m2 with an unpacking export)
 
 /-- m1.koto and m1/main.koto both exist; m2 exports two values, reassigns one locally, has a test and
 a main; m3 imports itself; m4 imports m2 and then fails in `@main` -/
@@ -32,6 +33,9 @@ def fsEx : FS := fun p =>
       .defTest 70 4 [], .defMain 5 []])
   else if p = pC then some (.ok [.act (.print 6), .act (.importMods [⟨3, none⟩])])
   else if p = pD then some (.ok [.act (.print 7), .act (.importMods [⟨2, none⟩]), .defMain 8 [.fail 9]])
+  else if p = pE then some (.ok [.act (.print 10), .act (.importMods [⟨2, none⟩]),
+      -- `export k63, {k60, k61 as k62}, _ = 1, m2, 5`
+      .act (.assignPat true [.id 63, .mapPat [⟨60, some 60⟩, ⟨61, some 62⟩], .ignored] [.lit 1, .ref 2, .lit 5])])
   else none
 
 def cfgEx : Cfg := { runImportTests := true, hostTests := false }
@@ -315,6 +319,32 @@ example : (finalSt cfgEx fsEx 5
       (fun s => (s.exports.data, resolve s.cache (.mref pB)))
     = some ([(62, .mref pB)], some [(60, .int 7), (61, .int 9)]) := by decide
 
+/-- exports ⊇ bound ids of every exported assignment: after `export t1, t2, … = …` (or any top-level
+(multi-)assignment under export_top_level_ids) EVERY id bound by the targets — plain ids and the ids
+bound inside map patterns, with or without `as` — is in the exports map, holding the value it was
+bound to as a local -/
+theorem export_pattern_visible {cfg : Cfg} {fs : FS} {rec : Runner} (exp : Bool) (targets : List Target)
+    (rhs : List Rhs) {fr fr' : Frame} {s s' : St} (hexp : (exp || fr.exportTop) = true)
+    (h : execAct cfg fs rec (.assignPat exp targets rhs) fr s = some (none, fr', s')) :
+    ∀ k ∈ boundIds targets, ∃ v, lookup k fr'.locals = some v ∧ lookup k s'.exports.data = some v := by
+  intro k hk
+  simp only [execAct] at h
+  split at h
+  · simp at h
+  · simp only [Option.some.injEq] at h
+    rw [hexp] at h
+    exact bindTargets_agree k targets h (Or.inl hk)
+
+/-- … and, as for single exports, the entries stay until a later statement writes them
+(`export_visible_later` with `touches` extended to patterns), so importers and the host see them -/
+example : touches false false 62 (.assignPat true [.id 63, .mapPat [⟨60, some 60⟩, ⟨61, some 62⟩]] []) = true
+    ∧ touches false false 61 (.assignPat true [.id 63, .mapPat [⟨60, some 60⟩, ⟨61, some 62⟩]] []) = false := by
+  decide
+
+-- m6 does `export k63, {k60, k61 as k62}, _ = 1, m2, 5`: an importer sees all three bound ids
+example : (finalSt cfgEx fsEx 7 [opImport 6] init).map (fun s => resolve s.cache (.mref pE))
+    = some (some [(63, .int 1), (60, .int 7), (62, .int 9)]) := by decide
+
 /-! ## reassign_keeps_export -/
 
 /-- a plain assignment (without export_top_level_ids) changes nothing but the local -/
@@ -559,8 +589,8 @@ theorem fuel_adequate_unit (cfg : Cfg) (fs : FS) (files : List Path)
   runUnit_adequate cfg fs files hfiles files.length n m hn hm dir body s hinv
     (by have := avail_le_length files s; omega)
 
--- non-vacuity: the example file system has its files at five paths; fuel 6 and fuel 100 agree
-example : ∀ p, fsEx p ≠ none → p ∈ [pA, pAdir, pB, pC, pD] := by
+-- non-vacuity: the example file system has its files at six paths
+example : ∀ p, fsEx p ≠ none → p ∈ [pA, pAdir, pB, pC, pD, pE] := by
   intro p h
   unfold fsEx at h
   by_cases h1 : p = pA
@@ -573,6 +603,8 @@ example : ∀ p, fsEx p ≠ none → p ∈ [pA, pAdir, pB, pC, pD] := by
   · simp [h4]
   by_cases h5 : p = pD
   · simp [h5]
-  simp [h1, h2, h3, h4, h5] at h
+  by_cases h6 : p = pE
+  · simp [h6]
+  simp [h1, h2, h3, h4, h5, h6] at h
 
 end KotoVerif.C18
